@@ -157,6 +157,18 @@ inline float __redu_mod(__redu_operands<float> v) {
   }
   return r;
 }
+
+inline long __redu_pow(__redu_operands<long> v) {
+  long result = 1;
+  for (long i = 0; i < v.right; ++i) {
+    result *= v.left;
+  }
+  return result;
+}
+
+inline float __redu_pow(__redu_operands<float> v) {
+  return pow(v.left, v.right);
+}
 """
 
 LIST_HELPER_SNIPPET = """template <typename T>
